@@ -181,6 +181,7 @@ pub fn check(fc: &FCase, st: &mut Stats) -> CheckResult {
     let mutating = after != before;
 
     // the faulted request
+    let prev_latest = h.model.client(c).latest();
     let _ = wrap::take_log(&shared);
     wrap::arm(&shared, vec![fc.fault]);
     let out = issue(&mut h, &fc.target);
@@ -252,8 +253,50 @@ pub fn check(fc: &FCase, st: &mut Stats) -> CheckResult {
         h.model.client_mut(c).exists = exists;
     }
 
-    // later requests are served normally (and do not wait on a leaked lock)
+    // later requests are served normally (and do not wait on a leaked lock): first of all the
+    // reads - the whole chain as it is stored now is served through the same server object, and
+    // the snapshot is a usable base
     let t0 = std::time::Instant::now();
+    {
+        let mut quiet = Stats::default();
+        quiet.frozen = true;
+        let served = |f: Fail| match f {
+            Fail::Violation(m) => Fail::Violation(format!("{what}: right after the failed request, reads are not served normally (the stored state is {}): {m}", if applied { "as after the request" } else { "as before it" })),
+            o => o,
+        };
+        // which read comes first varies: the retrying client's natural first question (is there a
+        // child of what I hold?), the snapshot, or the whole chain from its base
+        let order = (fc.fault.at as usize + before.chain.len()) % 3;
+        for k in 0..3 {
+            match (order + k) % 3 {
+                0 => {
+                    let mc = h.model.client(c);
+                    let out = h.drv.get_child(c, prev_latest);
+                    let ok = match (mc.predict_get_child(prev_latest), &out) {
+                        (crate::model::GcPred::Found(i), Outcome::Found { id, parent, data }) => *id == mc.chain[i].id && *parent == mc.chain[i].parent && **data == *mc.chain[i].data,
+                        (crate::model::GcPred::NotFound, Outcome::NotFound) => true,
+                        (crate::model::GcPred::Gone, Outcome::Gone) => true,
+                        (crate::model::GcPred::NoSuchClient, Outcome::NoSuchClient) => true,
+                        // over HTTP both are a plain 404
+                        (crate::model::GcPred::NoSuchClient, Outcome::NotFound) => fc.via == Via::Http,
+                        _ => false,
+                    };
+                    if !ok {
+                        return Err(served(Fail::Violation(format!("GetChildVersion({prev_latest}) - the version the client held before the request - answered {}; the stored chain has {} versions, latest {}", out.short(), mc.chain.len(), mc.latest()))));
+                    }
+                }
+                1 => {
+                    let out = h.drv.get_snapshot(c);
+                    h.c11_check(902, c, &out, &mut quiet).map_err(served)?;
+                }
+                _ => {
+                    h.c01_walk(900, c, &mut quiet).map_err(served)?;
+                    h.c11_walk(901, c, &mut quiet).map_err(served)?;
+                }
+            }
+        }
+        st.label(&format!("c05:first-read-after-fault:{}", ["get-child-of-held-version", "get-snapshot", "chain-walk"][order]));
+    }
     let mut or = Oracles::default();
     or.c02 = true;
     or.c11 = true;
@@ -426,7 +469,7 @@ pub fn run(tier: Tier, seed: u64) -> Report {
         tier,
         seed,
         "fault_enumeration",
-        "SQLite-backed histories (library and HTTP handlers) with a fault plan. Trait level: the k-th storage call of the target request (begin, each read, each write, commit) fails either before taking effect or after taking effect (effect applied, error reported); complete enumeration of (call, before/after) for the canonical requests in three client states, plus generated prefixes/requests/plans and double faults (a second fault in the request that follows). File level: the n-th read/write/sync/truncate/open/delete/lock call of the VFS inside the target request returns an I/O error. Oracle: an injected trait-level failure => error response, state (ids abstracted to chain positions, incl. stored row count) equal to before - or equal to the fault-free twin's state only when the failed call was a commit that took effect; file level: error => state in {before, after}, success => state = after; afterwards a write by the same client and reads are served per the model without waiting on a leaked lock. Non-trivial: the fault hits a write or commit of a mutating request; distinct by (entry, request kind, call, before/after, call index, state class).",
+        "SQLite-backed histories (library and HTTP handlers) with a fault plan. Trait level: the k-th storage call of the target request (begin, each read, each write, commit) fails either before taking effect or after taking effect (effect applied, error reported); complete enumeration of (call, before/after) for the canonical requests in three client states, plus generated prefixes/requests/plans and double faults (a second fault in the request that follows). File level: the n-th read/write/sync/truncate/open/delete/lock call of the VFS inside the target request returns an I/O error. Oracle: an injected trait-level failure => error response, state (ids abstracted to chain positions, incl. stored row count) equal to before - or equal to the fault-free twin's state only when the failed call was a commit that took effect; file level: error => state in {before, after}, success => state = after; afterwards, through the same server object, the first read is - in turn - the child of the version the client held, the snapshot, or the whole chain from its base (all three are made), then a write by the same client and further reads are served per the model without waiting on a leaked lock. Non-trivial: the fault hits a write or commit of a mutating request; distinct by (entry, request kind, call, before/after, call index, state class).",
     );
     rep.assume("'client exists with no versions' is identified with 'client unknown' (no protocol read tells them apart; the HTTP create step is a transaction of its own by design)");
     rep.assume("the fault-free outcome of a request is obtained by running it on a copy of the database file");
